@@ -22,7 +22,7 @@ use std::collections::BTreeMap;
 use std::net::{IpAddr, Ipv4Addr, Ipv6Addr};
 use std::sync::Arc;
 
-pub const RULE: &str = "export-rpki: cases = (1..6 VRPs placed relative to the rig's prefixes: covering with 0..4 fewer bits, or 1..2 more specific; max-length from the VRP's length up to 6 more; origin AS 65100, 65101, 0 or an unrelated one; plus one unrelated VRP per family so that neither table is empty), \
+pub const RULE: &str = "export-rpki: cases = (1..6 VRPs placed relative to the rig's prefixes: covering with 0..4 fewer bits, or 1..2 more specific; max-length from the VRP's length up to 6 more; origin AS 65100, 65101, 0, the local AS or an unrelated one; plus one unrelated VRP per family so that neither table is empty), \
 an eBGP neighbour whose export policy is `if rpki == S then reject` or `if rpki == S then add community 65000:2` (S = valid / invalid / not-found), attached to the neighbour itself or as the global assignment, 0..6 routes present before the session comes up, then 1..20 steps: \
 insert/replace (3 eBGP sources, AS_PATH ending in 65100 or 65101), remove, deliver k queued changes to the session (handle_prefix_update), flush. \
 Oracle after everything is delivered and flushed: the neighbour holds a prefix iff it has a best path and (reject policy) the RFC 6811 state of that best path (own classification from the VRP list: covering VRPs, one of them with the origin AS, not AS 0, and max-length >= route length -> valid; covered but none matching -> invalid; not covered -> not-found) differs from S; under the tagging policy every best path is held and carries 65000:2 iff its state is S. \
@@ -36,7 +36,7 @@ pub struct VrpSpec {
     pub rel: u8,
     /// max-length = VRP length + extra
     pub extra: u8,
-    /// 0: 65100, 1: 65101, 2: AS 0, 3: 64999
+    /// 0: 65100, 1: 65101, 2: AS 0, 3: 64999, 4: the local AS
     pub asn: u8,
 }
 
@@ -88,11 +88,12 @@ fn vrp_of(s: &VrpSpec) -> Vrp {
     let width = if v6 { 128 } else { 32 };
     let len = if s.rel % 7 <= 4 { rl - (s.rel % 7) } else { (rl + (s.rel % 7 - 4)).min(width) };
     let maxlen = (len + s.extra % 7).min(width);
-    let asn = match s.asn % 4 {
+    let asn = match s.asn % 5 {
         0 => 65100,
         1 => 65101,
         2 => 0,
-        _ => 64999,
+        3 => 64999,
+        _ => LOCAL_ASN,
     };
     (v6, top(bits, len), len, maxlen, asn)
 }
@@ -152,10 +153,9 @@ pub fn check(c: &Case) -> CheckResult {
     rt.block_on(run_case(c))
 }
 
-async fn run_case(c: &Case) -> CheckResult {
-    let rig = Rig::new(false);
-    // VRPs: the generated ones and one unrelated per family
-    let mut vrps: Vec<Vrp> = c.vrps.iter().map(vrp_of).collect();
+/// install the generated VRPs and one unrelated VRP per family; returns the list the model uses
+fn install_vrps(rig: &Rig, specs: &[VrpSpec]) -> Vec<Vrp> {
+    let mut vrps: Vec<Vrp> = specs.iter().map(vrp_of).collect();
     vrps.push((false, (u32::from(Ipv4Addr::new(203, 0, 113, 0)) as u128) << 96, 24, 24, 64999));
     vrps.push((true, 0x2001_0db9u128 << 96, 32, 48, 64999));
     let cache = Arc::new(IpAddr::V4(Ipv4Addr::new(192, 0, 2, 200)));
@@ -167,6 +167,12 @@ async fn run_case(c: &Case) -> CheckResult {
         })
         .collect();
     rig.tm.rpki_insert(roas);
+    vrps
+}
+
+async fn run_case(c: &Case) -> CheckResult {
+    let rig = Rig::new(false);
+    let vrps = install_vrps(&rig, &c.vrps);
     let (_keep, a) = assignment(c.state, c.tag);
     if !c.per_peer {
         rig.tm.export_policy.store(Some(a.clone()));
@@ -270,7 +276,7 @@ fn arb_writer() -> impl Strategy<Value = TmOp> {
 }
 
 pub fn arb_case(max: usize) -> impl Strategy<Value = Case> {
-    let vrp = (0u8..3, 0u8..7, 0u8..7, 0u8..4).prop_map(|(at, rel, extra, asn)| VrpSpec { at, rel, extra, asn });
+    let vrp = (0u8..3, 0u8..7, 0u8..7, 0u8..5).prop_map(|(at, rel, extra, asn)| VrpSpec { at, rel, extra, asn });
     let step = prop_oneof![
         6 => arb_writer().prop_map(Step::W),
         2 => (1u8..4).prop_map(Step::Deliver),
@@ -298,4 +304,88 @@ pub fn arb_case(max: usize) -> impl Strategy<Value = Case> {
 
 pub fn replay(case: &Value) -> Result<CheckResult, String> {
     Ok(check(&decode_case(case)?))
+}
+
+// ---------------------------------------------------------------------------
+// api-rpki: the state shown by the API (TableManager::collect_paths)
+// ---------------------------------------------------------------------------
+
+pub const API_RULE: &str = "api-rpki: VRPs as in export-rpki; 1..14 writes into a 3-shard TableManager: paths of 3 peers (2 path ids) and of the API / kernel sources, with an AS_PATH ending in 65100 / 65101 or an empty AS_PATH (no origin AS), removes. Then TableManager::collect_paths (what ListPath shows) for both families: every listed path carries a validation result, and its state is the own RFC 6811 classification of (prefix, origin AS of that path); for a path without origin AS both readings the statement leaves open are accepted for that path - no origin (never valid) or the local AS of the session it came from (0 for API / kernel paths) - but nothing else, in particular not the state of another path of the same prefix. non-trivial := a prefix lists two or more paths without origin AS from sources with different local AS; distinct := distinct serialized case";
+
+#[derive(Clone, Debug, Serialize, Deserialize)]
+pub struct ApiCase {
+    pub vrps: Vec<VrpSpec>,
+    pub writes: Vec<TmOp>,
+}
+
+pub fn check_api(c: &ApiCase) -> CheckResult {
+    let rig = Rig::new(false);
+    let vrps = install_vrps(&rig, &c.vrps);
+    for op in &c.writes {
+        catch(|| rig.apply(op)).map_err(|p| p.into_failure("table-manager"))?;
+    }
+    let mut info = CaseInfo::trivial();
+    for family in [Family::IPV4, Family::IPV6] {
+        let listed = catch(|| rig.tm.collect_paths(table::TableQuery::Global, family, Vec::new(), true)).map_err(|p| p.into_failure("collect_paths"))?;
+        for d in &listed {
+            let Some((v6, bits, len)) = net_bits(&d.net) else { continue };
+            let mut originless: Vec<u32> = Vec::new();
+            for p in &d.paths {
+                let origin = origin_as(&p.attr);
+                let allowed: Vec<St> = match origin {
+                    Some(o) => vec![classify(&vrps, v6, bits, len, Some(o))],
+                    None => {
+                        originless.push(p.source.local_asn);
+                        vec![classify(&vrps, v6, bits, len, None), classify(&vrps, v6, bits, len, Some(p.source.local_asn))]
+                    }
+                };
+                let got = match p.validation.as_ref().map(|v| v.state) {
+                    Some(table::RpkiValidationState::Valid) => Some(St::Valid),
+                    Some(table::RpkiValidationState::Invalid) => Some(St::Invalid),
+                    Some(table::RpkiValidationState::NotFound) => Some(St::NotFound),
+                    _ => None,
+                };
+                if !got.is_some_and(|g| allowed.contains(&g)) {
+                    let who = if p.source.is_local() { "api" } else if p.source.is_kernel() { "kernel" } else { "peer" };
+                    return Err(Failure::new("api-rpki", format!("{:?}: the path of {} ({who} source, local AS {}, origin AS {origin:?}) is listed with validation state {got:?}; RFC 6811 over the installed VRPs gives {allowed:?}", d.net, p.source.remote_addr, p.source.local_asn)).with("source", who).with("originless", origin.is_none()).with("paths", d.paths.len().min(3)));
+                }
+                info.classes.push(match got {
+                    Some(St::Valid) => "listed-valid",
+                    Some(St::Invalid) => "listed-invalid",
+                    _ => "listed-not-found",
+                });
+            }
+            originless.sort();
+            originless.dedup();
+            if originless.len() >= 2 {
+                info.nontrivial = true;
+            }
+        }
+    }
+    Ok(info)
+}
+
+pub fn arb_api_case() -> impl Strategy<Value = ApiCase> {
+    let vrp = (0u8..3, 0u8..7, 0u8..7, 0u8..5).prop_map(|(at, rel, extra, asn)| VrpSpec { at, rel, extra, asn });
+    let attrs = prop_oneof![1 => 0u8..6, 1 => 60u8..66];
+    let w = prop_oneof![
+        6 => (0u8..N_PEERS, 0u8..N_PREFIX, 0u8..2, attrs.clone(), 0u8..N_NH).prop_map(|(peer, prefix, path_id, attrs, nh)| TmOp::Insert { peer, prefix, path_id, attrs, nh }),
+        4 => (0u8..2, 0u8..N_PREFIX, attrs, 0u8..N_NH).prop_map(|(kind, prefix, attrs, nh)| TmOp::InsertLocal { kind, prefix, attrs, nh }),
+        1 => (0u8..N_PEERS, 0u8..N_PREFIX, 0u8..2).prop_map(|(peer, prefix, path_id)| TmOp::Remove { peer, prefix, path_id }),
+    ];
+    (proptest::collection::vec(vrp, 1..6), proptest::collection::vec(w, 1..14), 0u8..N_PREFIX).prop_map(|(mut vrps, mut writes, base)| {
+        for op in writes.iter_mut() {
+            if let TmOp::Insert { prefix, .. } | TmOp::Remove { prefix, .. } | TmOp::InsertLocal { prefix, .. } = op {
+                *prefix = (base + (*prefix % 2)) % N_PREFIX;
+            }
+        }
+        for v in vrps.iter_mut() {
+            v.at = (base + v.at % 2) % N_PREFIX;
+        }
+        ApiCase { vrps, writes }
+    })
+}
+
+pub fn replay_api(case: &Value) -> Result<CheckResult, String> {
+    Ok(check_api(&decode_case(case)?))
 }
